@@ -141,7 +141,9 @@ theorem topDispatch_ignored {c : NameClass} (h : topDispatch c = .ignored) :
   · cases h
   · split at h
     · split at h
-      · constructor <;> assumption
+      · rename_i hl hc
+        simp only [Bool.and_eq_true] at hl
+        exact ⟨hl.1, hc⟩
       · cases h
     · split at h
       · cases h
